@@ -291,7 +291,7 @@ theorem sorted_view (ty : Option Bytes) (db : Db) (hnd : (db.map (·.1)).Nodup) 
 /-- The fast path returns what the cursor walk over the sorted members returns (the real code
     returns it in hash-table order). -/
 theorem sscan_eq_scanSorted (hg : g.ok) (members : List Bytes) (c count : Nat) (pat : Option Bytes) :
-    sscan g members c count pat = scanSorted g (matchOpt pat) (sortKeys members) c count := by
+    sscan g members c count pat = scanSorted g (matchOpt g.lossy pat) (sortKeys members) c count := by
   unfold sscan
   split
   · rename_i h
@@ -301,7 +301,7 @@ theorem sscan_eq_scanSorted (hg : g.ok) (members : List Bytes) (c count : Nat) (
       rintro ⟨h1, h2⟩
       exact h2 (List.eq_nil_of_length_eq_zero (by omega))
     simp only [hnot, if_false, List.drop_zero, Nat.zero_add]
-    have hm : matchOpt none = fun _ => true := by funext k; simp [matchOpt]
+    have hm : matchOpt g.lossy none = fun _ => true := by funext k; simp [matchOpt]
     rw [hm, scanLoop_all g hg.2.2 (normCount g count) (sortKeys members) 0 0 (Nat.le_refl 0)
       (by rw [length_sortKeys]; omega)]
     simp
